@@ -16,6 +16,18 @@ PATHS = ['/cells/*/source', '/cells/*/source/*', '/cells/*/attachments', '/cells
          '/cells/*/outputs/*/data', '/cells/*/execution_count', '/cells/*/cell_type', '/nbformat', '/nbformat_minor', '/cells', '/cells/*', '/other']
 
 
+def no_esc(v):
+    """inputs for the colour clause carry no escape characters of their own (tracebacks often do),
+    so that every ANSI sequence in the output is the renderer's"""
+    if isinstance(v, str):
+        return v.replace('\x1b', '')
+    if isinstance(v, dict):
+        return {k: no_esc(x) for k, x in v.items()}
+    if isinstance(v, list):
+        return [no_esc(x) for x in v]
+    return v
+
+
 def include_ns(bits):
     return types.SimpleNamespace(**{c: not (bits >> i & 1) for i, c in enumerate(CATS)})
 
@@ -88,6 +100,7 @@ def run(ctx):
     k = 0
     for t in range(n):
         a, b, kinds = gen_nb.pair(rng)
+        a, b = no_esc(a), no_esc(b)
         r, _ = c01.impl_diffnb(a, b)
         if r[0] != 'ok':
             continue
@@ -113,6 +126,7 @@ def run(ctx):
                 render(ctx, 'pretty_print_notebook', lambda cfg: pp.pretty_print_notebook(na, cfg), make_cfg(bits, use_color, color_words, tool), data)
         if t % 2 == 0:
             bb, l, rr, kinds = gen_nb.any_triple(rng)
+            bb, l, rr = no_esc(bb), no_esc(l), no_esc(rr)
             res = mergelib.run_merge(bb, l, rr, rng.choice([mergelib.Args('mergetool'), mergelib.Args('inline')]))
             if res[0] == 'ok':
                 from checks import c09
@@ -132,6 +146,7 @@ def run(ctx):
     with tempfile.TemporaryDirectory(prefix='verif-c16-') as td:
         for i in range(4 if ctx.tier == 'quick' else 40):
             a, b, kinds = gen_nb.pair(rng)
+            a, b = no_esc(a), no_esc(b)
             pa, pb = os.path.join(td, 'a%d.ipynb' % i), os.path.join(td, 'b%d.ipynb' % i)
             json.dump(a, open(pa, 'w'))
             json.dump(b, open(pb, 'w'))
